@@ -14,3 +14,13 @@ package json
 //@   writes bytes.Buffer b
 //@   ensures[C15] marked_rejected: (=> (is_marked val) (not (= result nil.Any)))
 //@   ensures[C15] unknown_rejected: (=> (not (is_known val)) (not (= result nil.Any)))
+//
+// marshalDynamic wraps the value in a {"value":..,"type":..} object: an error of the inner marshal
+// (in particular the rejection of a marked or unknown value) must come back as an error.
+//@ func json.marshalDynamic
+//@   tags C15
+//@   may_panic
+//@   requires (wf_deep val)
+//@   writes bytes.Buffer b
+//@   ensures[C15] marked_rejected: (=> (is_marked val) (not (= result nil.Any)))
+//@   ensures[C15] unknown_rejected: (=> (not (is_known val)) (not (= result nil.Any)))
